@@ -161,7 +161,13 @@ def kernels(chk):
         want_key = (Function("mod")(i - args["shifts"].fn(j), nz), k, j)
         fam = (Symbol("arr_kts"), args["deg"], Symbol("arr_coeffs"))
         want_val = S1(Wrap(args["qVals"].fn(k) + args["thetaShifts"].fn(j)), 0, *fam)
-        ok = len(keys) == 1 and all(alg_equal(a, b) for a, b in zip(keys[0], want_key)) and alg_equal(vals.cells[keys[0]], want_val)
+        def congruent(a, b):
+            # row indices are compared modulo nz (interpreted Python wraps a negative index; whether compiled code may
+            # rely on that is C19's rule K1, not this property's)
+            strip = lambda e: e.replace(lambda x: x.func == Function("mod") and x.args[1] == nz, lambda x: x.args[0])
+            return alg_equal(strip(a), strip(b))
+        ok = len(keys) == 1 and congruent(keys[0][0], want_key[0]) and all(alg_equal(a, b) for a, b in zip(keys[0][1:], want_key[1:])) \
+            and alg_equal(vals.cells[keys[0]], want_val)
         chk.ob("F6-table-writer", fn, "vals[(i - shifts[j]) % nz, k, j] = S(theta_k + thetaShifts[j])", ok,
                "the value for source row i and stencil entry j is stored at target row (i - shift_j) mod nz, with the theta "
                "shift of the same j" if ok else f"writer stores {dict(vals.cells)}", file=U.ADVK, func="general_get_lagrange_vals",
